@@ -20,7 +20,7 @@ EmptyFun     == [x \in {} |-> 0]
 
 NoCall == [started |-> FALSE, ends |-> 0, outcome |-> "none", token |-> 0 - 1, detail |-> "", kind |-> "none", cli |-> "", tr |-> "",
            execs |-> 0, running |-> 0, ctxdone |-> FALSE, cancelReq |-> FALSE, srvconn |-> 0, peer |-> "",
-           reqFrames |-> 0, idOnWire |-> FALSE, haschan |-> FALSE,
+           reqFrames |-> 0, idOnWire |-> FALSE, haschan |-> FALSE, endedHealthy |-> FALSE, startedHealthy |-> FALSE,
            endedWhileFault |-> FALSE, startedAfterClose |-> FALSE, ctxdoneBad |-> FALSE]
 NoSub  == [sent |-> 0, recv |-> 0, ordered |-> TRUE, foreign |-> FALSE, closed |-> 0, afterClose |-> FALSE, hclosed |-> FALSE,
            sentAtHClose |-> 0]
@@ -37,6 +37,8 @@ ObsInit == [call |-> EmptyFun, sub |-> EmptyFun,
             lockViol |-> 0,          \* overlapping write sections / sections entered without the lock held
             retained |-> 0,          \* library goroutines still labelled with a dead server connection at quiescence
             revBlocked |-> {}, revWrong |-> {},       \* reverse calls that blocked (or succeeded) after their client's connection was gone
+            healthyPhase |-> TRUE,   \* keepalive scenarios: no fault has been injected yet
+            keepaliveViol |-> {},    \* clauses violated in a keepalive scenario
             scName |-> "",           \* name of the scenario (from the reset event)
             crashed |-> FALSE,       \* the process hosting the code under test died
             ctxMissing |-> {},       \* calls whose handler waited in vain for its context to be cancelled
@@ -57,11 +59,11 @@ SetSub(o, t, s)  == [o EXCEPT !.sub = Upd(o.sub, t, s)]
 
 ObsStep(o, e) ==
   CASE e.ev = "CallStart" ->
-         SetCall(o, e.call, [Call(o, e.call) EXCEPT !.started = TRUE, !.kind = e.kind, !.cli = e.cli, !.tr = e.transport,
+         SetCall(o, e.call, [Call(o, e.call) EXCEPT !.started = TRUE, !.kind = e.kind, !.cli = e.cli, !.tr = e.transport, !.startedHealthy = o.healthyPhase,
                                                     !.startedAfterClose = e.cli \in o.closerEnd])
     [] e.ev = "CallEnd" ->
          LET c == Call(o, e.call) IN
-         SetCall(o, e.call, [c EXCEPT !.ends = @ + 1, !.outcome = e.outcome, !.token = e.token, !.detail = e.detail,
+         SetCall(o, e.call, [c EXCEPT !.ends = @ + 1, !.outcome = e.outcome, !.token = e.token, !.detail = e.detail, !.endedHealthy = o.healthyPhase,
                                       !.haschan = IF "haschan" \in DOMAIN e THEN e.haschan ELSE FALSE])
     [] e.ev = "HandlerStart" ->
          LET c == Call(o, e.call) IN
@@ -104,6 +106,11 @@ ObsStep(o, e) ==
          [o EXCEPT !.lockViol = IF Get(o.inWriter, e.conn, "") # "" \/ ~e.locked THEN @ + 1 ELSE @,
                    !.inWriter = Upd(o.inWriter, e.conn, e.w)]
     [] e.ev = "h:wl.exit" -> [o EXCEPT !.inWriter = Upd(o.inWriter, e.conn, "")]
+    [] e.ev = "PhaseEnd" -> [o EXCEPT !.healthyPhase = FALSE]
+    [] e.ev = "PhaseStart" -> [o EXCEPT !.healthyPhase = TRUE]
+    [] e.ev = "BlackholeOutcome" ->
+         [o EXCEPT !.keepaliveViol = @ \cup (IF e.pendingFailed THEN {} ELSE {"pending-call-not-failed-after-silent-peer"})
+                                       \cup (IF e.redial THEN {} ELSE {"no-redial-after-silent-peer"})]
     [] e.ev = "ConnGoroutines" -> [o EXCEPT !.retained = @ + e.n + (IF e.connEnded THEN 0 ELSE 1)]
     [] e.ev = "RevStart" -> [o EXCEPT !.revWrong = IF Call(o, e.call).cli # "" /\ Call(o, e.call).cli # e.peer THEN @ \cup {e.call} ELSE @]
     [] e.ev = "RevCallEnd" -> [o EXCEPT !.revBlocked = IF ~e.failed THEN @ \cup {e.call} ELSE @]
@@ -114,7 +121,8 @@ ObsStep(o, e) ==
     [] e.ev = "SrvCancel"  -> [o EXCEPT !.srvCancels = @ \cup {e.srvconn}]
     [] e.ev = "CloserStart" -> [o EXCEPT !.closerStart = @ \cup {e.cli}]
     [] e.ev = "CloserEnd"   -> [o EXCEPT !.closerEnd = @ \cup {e.cli}]
-    [] e.ev = "DialStart"   -> [o EXCEPT !.dials = @ + 1, !.dialsAfterClose = IF e.cli \in o.closerEnd THEN @ + 1 ELSE @,
+    [] e.ev = "DialStart"   -> [o EXCEPT !.keepaliveViol = IF o.scName = "c17.keepalive" /\ o.healthyPhase /\ ~e.first THEN @ \cup {"healthy-link-redialled"} ELSE @,
+                                         !.dials = @ + 1, !.dialsAfterClose = IF e.cli \in o.closerEnd THEN @ + 1 ELSE @,
                                          !.redialsNoReconnect = IF ~e.first /\ o.cfgNoReconnect THEN @ + 1 ELSE @,
                                          !.badBackoff = IF ~e.first /\ ~o.backoffSeen /\ o.cfgHooks THEN @ + 1 ELSE @,
                                          !.backoffSeen = FALSE]
@@ -211,7 +219,14 @@ Always_C16(o) ==
                                   /\ ((o.call[t].detail = "no-reverse-client") # (o.call[t].tr = "http" \/ ~o.cfgReverse))}}
   \cup {<<"C16", "reverse-handler-ran-on-another-client", t>> : t \in o.revWrong}
 
-Always(o) == Always_C15(o) \cup Always_C16(o) \cup Always_C13(o) \cup Always_Crash(o) \cup Always_C06b(o) \cup Always_C05(o) \cup Always_C05b(o) \cup Always_C02(o) \cup Always_C04(o) \cup Always_C06(o) \cup Always_C07(o) \cup Always_C08(o) \cup Always_C14(o) \cup Always_C18(o)
+\* C17: a healthy link is never dropped; a silent peer is noticed, pending calls fail and a redial starts
+Always_C17(o) ==
+  {<<"C17", cl, 0>> : cl \in o.keepaliveViol}
+  \cup {<<"C17", "call-failed-on-healthy-link:" \o o.call[t].outcome, t>> :
+          t \in {t \in Calls(o) : o.scName = "c17.keepalive" /\ o.call[t].startedHealthy /\ o.call[t].endedHealthy /\ o.call[t].ends >= 1
+                                  /\ o.call[t].outcome \notin {"ok", "herr"}}}
+
+Always(o) == Always_C17(o) \cup Always_C15(o) \cup Always_C16(o) \cup Always_C13(o) \cup Always_Crash(o) \cup Always_C06b(o) \cup Always_C05(o) \cup Always_C05b(o) \cup Always_C02(o) \cup Always_C04(o) \cup Always_C06(o) \cup Always_C07(o) \cup Always_C08(o) \cup Always_C14(o) \cup Always_C18(o)
 
 \* at quiescence q (a Quiesce event): nothing may be outstanding
 Quiet(o, q) ==
